@@ -17,12 +17,13 @@ import copy
 from .core import src_of
 from .linear import linear, show
 from . import sympath
+from .sympath import STALE
 from .shape import strparts
 
 
 def canon_atom(src, pol):
     """canonical spelling of a test: comparisons are oriented with < and ==, `is not`/`!=`/`>=` become negated atoms"""
-    src = src.split('@')[0]
+    src = src.split(STALE)[0]
     try:
         e = ast.parse(src, mode='eval').body
     except SyntaxError:
@@ -187,7 +188,7 @@ def _loop_text(q, n, r):
                 for t in ast.walk(n.target):
                     if isinstance(t, ast.Name):
                         env[t.id] = ast.Name(id='_elem_' + t.id, ctx=ast.Load())
-            paths = sympath.feasible(sympath.block_summaries(project, func, stmts, env=env, ncall0=1000 * _DEPTH[0]))
+            paths = sympath.feasible(sympath.block_summaries(project, func, stmts, env=env, ncall0=1000 * _DEPTH[0], named_constants=True))
             cs = _cases_of_paths(paths)
             parts = []
             for c in cs:
@@ -302,10 +303,11 @@ def _render(q):
     conds = []
     for s_, pol in q.conds:
         try:
-            e = ast.parse(s_.split('@')[0], mode='eval').body
+            e = ast.parse(s_.split(STALE)[0], mode='eval').body
         except SyntaxError:
             continue
-        conds.append((RC().visit(R(len(evs)).visit(e)), pol))
+        conds.append((R(len(evs)).visit(e), pol))
+    _render.ctext = ctext
     return conds, eff, ret
 
 
@@ -317,18 +319,27 @@ def cases(project, func, pure=(), inline=False, select=None, unroll=False):
         _CTX.pop()
 
 
+def _conds_of(rconds):
+    """canonical atoms of a rendered path; call results are spelled as the calls themselves (after canonicalisation)"""
+    import re as _re
+    ctext = getattr(_render, 'ctext', {})
+    conds = {}
+    bad = False
+    for e, pol in rconds:
+        k, v = canon_atom(src_of(e), pol)
+        k = _re.sub(r'(?<![\w.])__(\d+)(?!\w)', lambda m: '<%s>' % ctext.get('__' + m.group(1), '__' + m.group(1)), k)
+        if conds.get(k, v) != v:
+            bad = True
+        conds[k] = v
+    return conds, bad
+
+
 def _cases(project, func, pure=(), inline=False, select=None, unroll=False):
-    paths = sympath.feasible(sympath.summaries(project, func, inline=inline, pure=pure, select=select, unroll=unroll))
+    paths = sympath.feasible(sympath.summaries(project, func, inline=inline, pure=pure, select=select, unroll=unroll, named_constants=True))
     out = []
     for q in paths:
         rconds, eff, ret = _render(q)
-        conds = {}
-        bad = False
-        for e, pol in rconds:
-            k, v = canon_atom(src_of(e), pol)
-            if conds.get(k, v) != v:
-                bad = True
-            conds[k] = v
+        conds, bad = _conds_of(rconds)
         if bad:
             continue
         out.append(Case(conds, ret, tuple(eff), q.exit, q))
@@ -359,13 +370,7 @@ def _cases_of_paths(paths):
     out = []
     for q in paths:
         rconds, eff, ret = _render(q)
-        conds = {}
-        bad = False
-        for e, pol in rconds:
-            k, v = canon_atom(src_of(e), pol)
-            if conds.get(k, v) != v:
-                bad = True
-            conds[k] = v
+        conds, bad = _conds_of(rconds)
         if not bad:
             out.append(Case(conds, ret, tuple(eff), q.exit, q))
     return out
@@ -402,7 +407,7 @@ def segments(project, func, inline=True, select=None):
     for ci in cut + [None]:
         blk = body[start:ci] if ci is not None else body[start:]
         label = 'pre' if k == 0 else 'post%d' % k
-        paths = sympath.feasible(sympath.block_summaries(project, func, blk, env=dict(env), ncall0=100 * k))
+        paths = sympath.feasible(sympath.block_summaries(project, func, blk, env=dict(env), ncall0=100 * k, named_constants=True))
         cs = _cases_of_paths(paths)
         out.append((label, cs, sorted(looped & names_in(blk))))
         if ci is None:
@@ -430,7 +435,7 @@ def segments(project, func, inline=True, select=None):
             for t in ast.walk(lp.target):
                 if isinstance(t, ast.Name):
                     ienv[t.id] = ast.Name(id='_elem_' + t.id, ctx=ast.Load())
-        ipaths = sympath.feasible(sympath.block_summaries(project, func, stmts, env=ienv, ncall0=100 * k + 50))
+        ipaths = sympath.feasible(sympath.block_summaries(project, func, stmts, env=ienv, ncall0=100 * k + 50, named_constants=True))
         out.append(('iter%d' % k, _cases_of_paths(ipaths), sorted(carried)))
         env = dict(common)
         for n_ in looped:
